@@ -258,6 +258,25 @@ def make_registry():
         return Sym(container.IN(M.sterm(item)))
 
     reg.contains_models[GhostNameSet] = contains_names
+
+    # The zip-assembly loops are recognised by WHAT they iterate over (the ghost os.walk enumeration / the file list of one
+    # of its steps), not by the function they sit in: moving the block into a helper keeps the rule and the obligation names.
+    if not hasattr(reg, "loop_models"):
+        reg.loop_models = {}
+
+    def walk_loop(frame, spec):
+        def handler(interp, node, env, it):
+            interp.ctx.frames.append(frame)
+            try:
+                interp.symbolic_loop(node, env, spec, kind="for", iterable=it)
+            finally:
+                interp.ctx.frames.pop()
+            return None
+
+        return handler
+
+    reg.loop_models[M.WalkGen] = walk_loop("zip-assembly:for-each-directory-of-os.walk", LoopSpec(inv=save_outer_inv, havoc={"zip": havoc_zip}))
+    reg.loop_models[M.WalkFiles] = walk_loop("zip-assembly:for-each-file-of-the-directory", LoopSpec(inv=save_inner_inv, havoc={"zip": havoc_zip}))
     return reg
 
 
@@ -636,8 +655,6 @@ def make_save_contract(storekind, compkind, dang=None):
         on_raise=save_on_raise,
         raises={ValueError: save_value_error,
                 FileExistsError: lambda s: z3.BoolVal(True) if fault_is(s, FileExistsError) else AND(comp_ok(s), blocked(s))},
-        loops={0: LoopSpec(inv=save_outer_inv, havoc={"zip": havoc_zip}),
-               1: LoopSpec(inv=save_inner_inv, havoc={"zip": havoc_zip})},
         max_paths=6000, note=f"case: store resolves to {storekind}, compression_level {compkind}, target a dangling symlink: {dang}",
     )
     c.raises.update(fault_raises(lambda s: faulted(s)))
